@@ -73,7 +73,16 @@ def gen(rng, tier):
 
 
 render = EXT.render
-to_sx = EXT.to_sx
+
+
+def to_sx(case):
+    """the model is given the structure the implementation compiled (the text->structure tie is C06/C07/C10's);
+    this makes the positions of the cache tree comparable"""
+    try:
+        q = Q.canon_ast(Q.dump_query(jsonpath.compile(render(case))))
+    except Exception:  # noqa: BLE001
+        q = case["query"]
+    return ["eval", Q.query_sx(q), SX.j2sx(case["doc"]), SX.j2sx(case.get("ctx", {}))]
 
 
 def schedules(k, steps, rng_seed):
@@ -147,6 +156,42 @@ def impl(case):
     c2 = jsonpath.compile(text)
     out["query_unchanged"] = (str(c) == str0 and Q.canon_ast(Q.dump_query(c)) == dump0 and hash(c) == hash0)
     out["recompiled_equal"] = (c == c2 and hash(c) == hash(c2) and str(c) == str(c2))
+    out["cache"] = cache_layout(c)
+    out["cached_run_equal"] = out["first"] == out["no_cache"]
+    return out
+
+
+def cache_layout(c):
+    """for every top-level filter of the first path: (cacheable_nodes, positions wrapped by cache_tree())"""
+    import jsonpath.filter as F
+    import jsonpath.selectors as S
+    first = c.path if isinstance(c, jsonpath.CompoundJSONPath) else c
+    while isinstance(first, jsonpath.CompoundJSONPath):
+        first = first.path
+    out = []
+
+    def walk(node, pos, acc):
+        if isinstance(node, F.CachingFilterExpression):
+            acc.append(list(pos))
+            node = node._expr
+        if isinstance(node, F.InfixExpression):
+            walk(node.left, pos + [0], acc)
+            walk(node.right, pos + [1], acc)
+        elif isinstance(node, F.PrefixExpression):
+            walk(node.right, pos + [0], acc)
+        elif isinstance(node, F.ListLiteral):
+            for i, x in enumerate(node.items):
+                walk(x, pos + [i], acc)
+        elif isinstance(node, F.FunctionExtension):
+            for i, x in enumerate(node.args):
+                walk(x, pos + [i], acc)
+    for seg in first.selectors:
+        if isinstance(seg, S.ListSelector):
+            for it in seg.items:
+                if isinstance(it, S.Filter):
+                    acc = []
+                    walk(it.expression.cache_tree().expression, [], acc)
+                    out.append([bool(it.cacheable_nodes), acc])
     return out
 
 
@@ -154,6 +199,7 @@ def decode(sx, case):
     if sx[0] == "unsupported":
         return {"model": {}, "spec": {}, "in_domain": False, "skip": True}
     _, fi, fa, spec, wf, afi, afa, std, ext = sx[:9]
+    extra = {x[0]: x[1] for x in sx[9:] if isinstance(x, list) and len(x) == 2}
     ms = decode_matches(fi[1]) if fi[0] == "ok" else ["err", fi[1]]
     vals = [m[2] for m in ms] if fi[0] == "ok" else ms
     nodes = [[[p if isinstance(p, int) else ["k", p] for p in __import__("harness.common", fromlist=["x"]).sx_to_loc(n[0])],
@@ -161,8 +207,10 @@ def decode(sx, case):
     model = {"text": render(case), "first": ms, "again": ms, "hundredth": ms, "no_cache": ms, "interleaved_ok": True,
              "threads_agree": True, "threads_first": vals, "doc_unchanged": True, "ctx_unchanged": True,
              "query_unchanged": True, "recompiled_equal": True}
+    model["cache"] = [[x[0] == "true", [[int(i) for i in pos] for pos in x[1]]] for x in extra.get("cache", [])]
+    model["cached_run_equal"] = extra.get("cached-run-equal") == "true"
     spec_ = {k: [[m[0], m[1]] for m in nodes] for k in ("first", "again", "hundredth", "no_cache")}
-    spec_.update({"interleaved_ok": True, "threads_agree": True, "threads_first": [m[1] for m in nodes], "doc_unchanged": True,
+    spec_.update({"cached_run_equal": True, "interleaved_ok": True, "threads_agree": True, "threads_first": [m[1] for m in nodes], "doc_unchanged": True,
                   "ctx_unchanged": True, "query_unchanged": True, "recompiled_equal": True})
     return {"model": model, "spec": spec_, "in_domain": ext[1] == "true" and wf[1] == "true"}
 
@@ -174,7 +222,7 @@ def project(case, res, dec=None):
     for k in ("first", "again", "hundredth", "no_cache"):
         v = res[k]
         out[k] = [[m[0], m[2]] for m in v] if isinstance(v, list) and not (v and v[0] == "err") else v
-    for k in ("interleaved_ok", "threads_agree", "threads_first", "doc_unchanged", "ctx_unchanged", "query_unchanged",
+    for k in ("cached_run_equal", "interleaved_ok", "threads_agree", "threads_first", "doc_unchanged", "ctx_unchanged", "query_unchanged",
               "recompiled_equal"):
         out[k] = res[k]
     return out
